@@ -7,7 +7,8 @@ an *annotated* list, a float in the middle of an int chain) may be rare in a giv
 
 Left out on purpose (Python and C++ do not agree by construction, see the statement of C01): int / int, negative indices, indexing a
 string (a char in C++), a recursive *nested* function (an `auto` lambda cannot name itself), `raise Exception('text')` (std::exception
-has no message constructor; RuntimeError is used instead).
+has no message constructor; RuntimeError is used instead), `//` and `//=` (tranp has no C++ spelling for floor division: the operator is
+emitted verbatim, which C++ reads as the start of a comment).
 """
 from __future__ import annotations
 
@@ -75,6 +76,30 @@ class Acc:
 		return self._base + self.total * 10 + self.__hidden * 100 + self.shown * 1000
 
 
+class Cnt:
+	n: int
+
+	def __init__(self, n: int) -> None:
+		self.n = n
+
+	def wrap(self, a: int, b: int) -> int:
+		self.n %= a + b
+		self.n += a * 2 - b
+		self.n *= b - a + 7
+		return self.n
+
+
+def make_adder(k: int) -> Callable[[int], int]:
+	def add(x: int) -> int:
+		return x + k
+
+	return add
+
+
+def make_scaler(k: int, m: int) -> Callable[[int], int]:
+	return lambda x: x * k + m
+
+
 class Sub(Base):
 	ratio: float
 
@@ -126,6 +151,16 @@ FUNCS: list[tuple[str, list[tuple[str, tuple]], tuple, list[str], list[list]]] =
 	('modulo_floor', [('a', INT)], INT, ['return absi(a) % 7 + absi(a) % 3 * 10'], INTS),
 	('bitops', [('a', INT), ('b', INT)], INT, ['x = absi(a)', 'y = absi(b)', 'return (x & y) + (x | y) * 2 + (x ^ y) * 3 + (x << 2) + (y >> 1)'], PAIRS),
 	('compare_mix', [('a', INT), ('b', INT)], BOOL, ['return not a & 1 == b & 1 or a + 1 < b * 2 and a != b'], PAIRS),
+	# -- augmented assignment with an operator expression on the right (the right side is one operand, whatever it is spelled like)
+	('aug_rhs_expr', [('a', INT), ('b', INT)], INT, ['x = absi(a) + 20', 'y = absi(b) % 5 + 1', 'x %= y + 1', 't = x', 'x = absi(a) + 30', 'x -= y - 1', 't = t * 7 + x', 'x *= y + 1', 't = t + x', 'x += y if y > 2 else y * 3', 'return clamp(t + x)'], PAIRS),
+	('aug_rhs_bits', [('a', INT), ('b', INT)], INT, ['x = absi(a) + 9', 'y = absi(b) % 4 + 1', 'x <<= y % 2 + 1', 't = x % 97', 'x >>= 1 + y % 2', 't = t * 5 + x % 89', 'x &= y | 6', 't = t * 5 + x', 'x |= y & 3', 't = t * 5 + x', 'x ^= y + 1', 'return (t * 5 + x) % 9973'], PAIRS),
+	('aug_rhs_field', [('a', INT), ('b', INT)], INT, ['c = Cnt(absi(a) + 11)', 'return clamp(c.wrap(absi(b) % 3 + 1, 2) * 10 + c.n)'], PAIRS),
+	('aug_rhs_float', [('a', INT), ('x', FLOAT)], FLOAT, ['u = x + 8.0', 'u -= a - 1.5', 'u *= x + 1.0', 'u /= 2.0 + 2.0', 'return u'], IF),
+	# -- continue / break of an inner loop inside an enumerate loop (and the other way round)
+	('enumerate_inner_continue', [('n', INT)], INT, ['xs = [n, 4, 9, 2]', 't = 0', 'for i, x in enumerate(xs):', '\tfor k in range(3):', '\t\tif k == 1:', '\t\t\tcontinue', '\t\tt = t + k', '\tw = x', '\twhile w > 0:', '\t\tw = w - 3', '\t\tif w == 1:', '\t\t\tcontinue', '\t\tt = t + 1', '\tif x == 4:', '\t\tcontinue', '\tt = clamp(t * 3 + i * 10 + absi(x))', 'return t'], INTS),
+	('enumerate_nested', [('n', INT)], INT, ['xs = [n, 4]', 'ys = [1, 2, 3]', 't = 0', 'for i, x in enumerate(xs):', '\tfor j, y in enumerate(ys):', '\t\tif y == 2:', '\t\t\tcontinue', '\t\tt = (t * 2 + i * 10 + j + absi(x) % 3) % 9973', '\tt = t + i', 'return t'], INTS),
+	# -- closures that outlive the call that made them
+	('closure_factory', [('n', INT)], INT, ['f = make_adder(3)', 'g = make_adder(n)', 'h = make_scaler(n, 2)', 'k = make_scaler(5, n)', 'return clamp(f(10) + g(1) * 3 + h(3) * 5 + k(2) * 7)'], INTS),
 	# -- strings
 	('str_slices', [('s', STR)], STR, ["t = s + 'xyz'", 'return t[1:] + t[:2] + t[1:3]'], STRS),
 	('str_methods', [('s', STR)], INT, ["t = s + 'a,b'", "return (1 if t.startswith('a') else 0) + (2 if t.endswith('b') else 0) + t.find('b') * 4 + len(t) * 100"], STRS),
